@@ -8,11 +8,11 @@ package main
 // token type stored, the text bounds of its value and the final position.
 
 import (
-	"os"
 	"fmt"
 	"go/constant"
 	"go/token"
 	"go/types"
+	"os"
 	"sort"
 	"strings"
 
